@@ -115,6 +115,7 @@ class Session:
 
             self.config, self.OSC, self.randomness = config, OutputSuppressionContext, randomness
             self._saved_cfg = (config.configuration.module_name, config.configuration.seeding.seed)
+            self._saved_fsiso = config.configuration.filesystem_isolation
             self._saved_pyn = randomness.RNG.getstate()
             config.configuration.module_name = MODULE
             config.configuration.seeding.seed = self.cfg_seed
@@ -153,6 +154,7 @@ class Session:
         with contextlib.suppress(Exception):
             self.randomness.RNG.setstate(self._saved_pyn)
             self.config.configuration.module_name, self.config.configuration.seeding.seed = self._saved_cfg
+            self.config.configuration.filesystem_isolation = self._saved_fsiso
         with contextlib.suppress(Exception):
             self._stack.close()
         sys.modules.pop(MODULE, None)
@@ -179,6 +181,8 @@ class Session:
         sys.stderr = io.StringIO() if seq.get("custom_err") else self.d_err
         sys.stdin = io.StringIO("") if seq.get("custom_in") else self.d_in
         logging.disable(int(seq.get("logd", 0)))
+        # TestCaseExecutor wraps the execution in FilesystemIsolation() when this is set
+        self.config.configuration.filesystem_isolation = bool(seq.get("fsiso", False))
         self.module.COUNTER = 0
         self.randomness.RNG.seed(PYN_SEED)  # also registers RNG with the tracked instances
         random.seed(2)
@@ -238,8 +242,13 @@ class Session:
         t = tc.TestCase()
         for a in acts:
             t.add_statement(tc.Statement(node=cst.parse_module(code_of(a) + "\n").body[0], bound_variable=None, bound_type=None))
+        t0 = time.time()
         res = self.executor.execute(t)
         if res.timeout:
+            if time.time() - t0 < 60:
+                # not a time-out (the budget is 60 s per statement): the execution thread died without
+                # delivering a result ("Finished thread did not return a result")
+                return [("Exc", "E_no_result")]
             return None
         outs = []
         exc = dict(res.exceptions)
@@ -301,6 +310,9 @@ class Session:
                 return None
             after = self._pyn_snapshot()
             steps.append((item, outs, self.observe()))
+            if outs == [("Exc", "E_no_result")]:
+                viol.append(("executor:no-result", f"the execution thread of {[code_of(a) for a in item[1]]} died without a result "
+                             "(reported as ExecutionResult(timeout=True) although nothing timed out)", k))
             viol += [(s, m, k) for s, m in compare_snapshots(before, after)]
         return {"init": init, "steps": steps, "oracle": viol}
 
@@ -354,7 +366,7 @@ def gen_sequence(rng):
         else:
             items.append(("Exec", [gen_act(rng) for _ in range(rng.choice([1, 2, 3, 4, 5]))]))
     return {"custom_out": False, "custom_err": False, "custom_in": rng.random() < 0.3,
-            "logd": rng.choice([0, 0, 10, 30, 50]), "items": items}
+            "logd": rng.choice([0, 0, 10, 30, 50]), "fsiso": rng.random() < 0.3, "items": items}
 
 
 def gen_timeout_sequence(rng, kind=None):
@@ -364,7 +376,7 @@ def gen_timeout_sequence(rng, kind=None):
     post = [("Exec", [("LogCheck",), ("Print",), ("PrintErr",), ("OsFstat", 1), ("ReadIn",)]),
             ("Exec", [gen_act(rng) for _ in range(rng.choice([1, 2, 3]))])]
     return {"custom_out": False, "custom_err": False, "custom_in": rng.random() < 0.3,
-            "logd": rng.choice([0, 10, 30]), "items": pre + [("ExecTimeout", [kind])] + post}
+            "logd": rng.choice([0, 10, 30]), "fsiso": rng.random() < 0.3, "items": pre + [("ExecTimeout", [kind])] + post}
 
 
 def reads_hidden(acts) -> bool:
